@@ -23,6 +23,7 @@ import (
 	"go.uber.org/zap/zaptest/observer"
 	"gopkg.in/yaml.v3"
 
+	"go.opentelemetry.io/collector/component/componenttest"
 	"go.opentelemetry.io/collector/config/configgrpc"
 	"go.opentelemetry.io/collector/config/confighttp"
 	"go.opentelemetry.io/collector/config/configopaque"
@@ -200,6 +201,22 @@ func c14Renderings(sec string, quick bool) map[string]string {
 		out["confmap:configgrpc"] = fmt.Sprint(c.ToStringMap())
 	}
 	out["fmt:configgrpc:%+v"] = c14PtrRe.ReplaceAllString(fmt.Sprintf("%+v", gc.Headers), "PTR")
+	// the same configuration structs AFTER they have been used (client / connection / server built from them): whatever
+	// a config object remembers from building its client is part of what "however it is formatted" prints
+	gc.Endpoint, gc.TLSSetting.Insecure = "localhost:1", true
+	if conn, err := gc.ToClientConn(context.Background(), componenttest.NewNopHost(), componenttest.NewNopTelemetrySettings()); err == nil {
+		_ = conn.Close()
+	}
+	hc.Endpoint = "http://localhost:1"
+	if cl, err := hc.ToClient(context.Background(), componenttest.NewNopHost(), componenttest.NewNopTelemetrySettings()); err == nil {
+		cl.CloseIdleConnections()
+	}
+	for _, verb := range []string{"%v", "%+v", "%#v", "%s"} {
+		out["fmt:configgrpc-after-use:"+verb] = c14PtrRe.ReplaceAllString(fmt.Sprintf(verb, gc), "PTR")
+		out["fmt:configgrpc-after-use:&"+verb] = c14PtrRe.ReplaceAllString(fmt.Sprintf(verb, &gc), "PTR")
+		out["fmt:confighttp-after-use:"+verb] = c14PtrRe.ReplaceAllString(fmt.Sprintf(verb, hc), "PTR")
+		out["fmt:confighttp-after-use:&"+verb] = c14PtrRe.ReplaceAllString(fmt.Sprintf(verb, &hc), "PTR")
+	}
 	// zap encoders
 	core, logs := observer.New(zapcore.DebugLevel)
 	lg := zap.New(core)
